@@ -762,6 +762,24 @@ func (g *gen) genRequests(tier string, cyclic bool) {
 			q.Roles = []string{}
 		}
 		sc.Queries = append(sc.Queries, q)
+		if len(q.Roles) >= 2 && len(vt) > 0 && r.Chance(1, 3) {
+			// a request context: the same role slice (half of the time in ascending order, as a role set
+			// usually is kept) serves several requests in a row, for other resources and operations
+			ctx := append([]string{}, q.Roles...)
+			if r.Bool() {
+				sort.Strings(ctx)
+			}
+			for j := 0; j < 2+r.Intn(2); j++ {
+				t2 := vt[r.Intn(len(vt))]
+				p := QueryD{Ws: ws, Res: t2.Name, Roles: ctx, Op: "execute"}
+				if t2.Kind == "view" {
+					p.Op = kit.Pick(r, []string{"insert", "update", "select"})
+				} else if tableKinds[t2.Kind] {
+					p.Op = kit.Pick(r, []string{"insert", "update", "select", "activate", "deactivate"})
+				}
+				sc.Queries = append(sc.Queries, p)
+			}
+		}
 		if len(q.Roles) >= 2 && r.Chance(1, 4) {
 			p := q
 			p.Roles = shuffled(r, q.Roles) // the same request with the roles in another order
